@@ -12,11 +12,11 @@ CFG = dict(
                               "hand-written model Imports/Model.v of interp/src.go (effectivePkg, previousRoot, pkgDir, importSrc) and of gta's import-path rewriting, tied by function-level correspondence (verif exports on MapFS trees) and by end-to-end runs from disk and from a MapFS",
                               "the filesystem is modelled as the set of directories with Go files (fs.Stat answers); no regular file is named like a path element, no unreadable directory"],
     level_text="Coq theorems (unbounded: all filesystems, importing directories and import paths for resolution; all programs for the loader and for the agreement of whole loads; witnesses for the refutations) about executable models of interp/src.go (Y) and of cmd/go's GOPATH-mode resolution and loading (G); Y is tied to the source on every run by a function-level correspondence (effectivePkg/previousRoot/pkgDir through verif exports, exhaustive on small trees) and by whole programs evaluated by yaegi from disk and from a MapFS, all evaluated inside Coq; G is validated against GOPATH-mode go run on the same trees.",
-    level_note="Trusted: Coq kernel + vm_compute, no axioms; harness; go run in GOPATH mode as the reference. interp/src.go is modelled by hand and tied by correspondence (about 26k cases per quick run incl. an exhaustive enumeration of single-leaf filesystems of depth <= 3). Proved for all inputs: single resolutions (C16_resolve_partial), whole loads entered by an import path (C16_load_partial) or by a file with relative imports (C16_load_file_partial) outside the decidable finding regions, termination / once / no-cycle of importSrc unconditionally; the generator's region labels are cross-checked against the theorems' side conditions inside Coq on every case. Import cycles are exercised by a matrix (GOPATH, vendor, relative and mixed edges, lengths 1-4, self-import, path and file entries, packages with and without binary imports) run from disk and from a MapFS in child processes with a 48 MB stack and a budget of 2000 opens, so that a recursion that does not terminate is observed as a failing case.",
+    level_note="Trusted: Coq kernel + vm_compute, no axioms; harness; go run in GOPATH mode as the reference. interp/src.go is modelled by hand and tied by correspondence (about 26k cases per quick run incl. an exhaustive enumeration of single-leaf filesystems of depth <= 3). Proved for all inputs: single resolutions (C16_resolve_partial), whole loads entered by an import path (C16_load_partial) or by a file with relative imports (C16_load_file_partial) outside the decidable finding regions, termination / once / no-cycle of importSrc unconditionally; the generator's region labels are cross-checked against the theorems' side conditions inside Coq on every case. Import cycles are exercised by a matrix (GOPATH, vendor, relative and mixed edges, lengths 1-4, self-import, path and file entries, packages with and without binary imports) run from disk and from a MapFS in child processes with a 48 MB stack and a budget of 2000 opens, so that a recursion that does not terminate is observed as a failing case. The second attempt of importSrc (rootFromSourceLocation: os.Getwd() joined with the directory of the input file, relative to GOPATH/src) is modelled (ctx.c_retry); file entries are run with the working directory at the origin of the tree, the file named relative to it and an absolute GOPATH — from disk, and from a MapFS shown below an empty working directory — and the family of entry files inside GOPATH/src/<proj> (relative chains of length 1-3 whose last package imports a path present only in the nearest vendor directory / only in GOPATH/src / in both / in an outer vendor directory, with and without the main file importing it first) is generated on every run; its reference is go run on the same program with the relative imports inside GOPATH written as import paths.",
     technique="Coq proof by induction over path prefixes / fuel / load histories + model/implementation correspondence evaluated in Coq",
     assumptions=["import paths have no '.', '..', empty or 'vendor' elements (except the leading ./ ../ of relative imports)",
                  "previousRoot is only modelled for its call site (rootPath = GOPATH/src/root, root non-empty)",
-                 "the retry of importSrc through rootFromSourceLocation is not modelled: with the process outside GOPATH it cannot succeed where the first attempt failed",
+                 "rootFromSourceLocation is modelled for runs whose working directory is the origin of the tree (entry file named relative to it, absolute GOPATH); with a plain MapFS and a relative GOPATH it yields a root below which nothing exists (it consults os.Getwd, not the supplied filesystem), which behaves as the root \"\"",
                  "relative imports inside GOPATH packages have no toolchain reference (cmd/go rejects them): G (the importing file's directory) is the reference there"],
 )
 CFG["id"] = "C16"
